@@ -349,6 +349,18 @@ func Namespaces(root string) *Manifest {
 		recRefs(c, "Ring", Ref{a, "Ring"}), recRefs(a, "Ring", Ref{b, "Ring"}), recRefs(b, "Ring", Ref{c, "Ring"}),
 		&Type{Kind: KUnion, NS: a, Name: "NodeOrThing", Members: []Member{{R(a, "Node"), a + ".Node"}, {R(b, "Thing"), b + ".Thing"}}},
 		&Type{Kind: KEnum, NS: "org.alpha._internal", Name: "Mode", Symbols: []string{"ON", "OFF"}},
+		// a package cycle cyc.a.A -> cyc.b.B -> cyc.a.A2 whose last member uses a reference-free type of a third namespace
+		// (enum cyc.c.Color, fixed cyc.c.Hash4, typeref cyc.c.Id), and a type of that third namespace that is on no cycle
+		// and refers back into the cycle (cyc.c.Palette -> cyc.a.A): the leaves must move to conflictResolution with the
+		// cycle, otherwise conflictResolution and cyc.c import each other
+		recRefs("cyc.a", "A", Ref{"cyc.b", "B"}),
+		recRefs("cyc.b", "B", Ref{"cyc.a", "A2"}),
+		recRefs("cyc.a", "A2", Ref{"cyc.c", "Color"}, Ref{"cyc.c", "Hash4"}, Ref{"cyc.c", "Id"}, Ref{"cyc.c", "Plain"}),
+		&Type{Kind: KEnum, NS: "cyc.c", Name: "Color", Symbols: []string{"RED", "BLUE"}},
+		&Type{Kind: KFixed, NS: "cyc.c", Name: "Hash4", Size: 4},
+		&Type{Kind: KTyperef, NS: "cyc.c", Name: "Id", Prim: "int64"},
+		recRefs("cyc.c", "Plain"),
+		recRefs("cyc.c", "Palette", Ref{"cyc.a", "A"}),
 		recRefs("org.internal", "Cfg", Ref{"org.alpha._internal", "Mode"}),
 	)
 	eT := R(a, "Node")
@@ -551,5 +563,64 @@ func RandomNamespaces(root string, r *hx.Rand, k int) *Manifest {
 	}
 	m.PermIDs = ids
 	m.Types = append(m.Types, recRefs("g.outside", "Watcher", ids[r.Intn(len(ids))]))
+	return m
+}
+
+// ---- custom typerefs (two-step generation)
+
+func customGo(pkg, name, prim, goPrim, field, hashAdd string) string {
+	return "// hand-written: makes the typeref " + name + " custom (found by cmd.LocateCustomTyperefs)\npackage " + pkg + "\n\n" +
+		"import \"github.com/PapaCharlie/go-restli/v2/fnv1a\"\n\n" +
+		"type " + name + " struct{ " + field + " " + goPrim + " }\n\n" +
+		"func Marshal" + name + "(v " + name + ") (" + goPrim + ", error) { return v." + field + ", nil }\n\n" +
+		"func Unmarshal" + name + "(p " + goPrim + ") (" + name + ", error) { return " + name + "{" + field + ": p}, nil }\n\n" +
+		"func Equals" + name + "(l, r " + name + ") bool { return l." + field + " == r." + field + " }\n\n" +
+		"func ComputeHash" + name + "(v " + name + ") fnv1a.Hash {\n\th := fnv1a.NewHash()\n\th." + hashAdd + "(v." + field + ")\n\treturn h\n}\n"
+}
+
+// CustomTyperefs: an upstream project whose typerefs Urn (string), Millis (int64) and Temperature (float64) are made
+// custom by hand-written Go files placed in the output directory before generation, used as field type (required,
+// optional, defaulted), array item, map value, union member, finder / action parameter and collection key; and a
+// downstream project that is generated against the manifest the generator EMITTED for upstream and uses the same types
+// in the same positions.
+func CustomTyperefs(root string) *Manifest {
+	ns := "com.ex.weather"
+	m := &Manifest{Family: "custom-typerefs-two-step", Root: root, WellFormed: true, HandWritten: map[string]string{}}
+	type ct struct{ name, prim, goPrim, field, add, def string }
+	cts := []ct{{"Urn", "string", "string", "Value", "AddString", `"urn:li:x:1"`}, {"Millis", "int64", "int64", "N", "AddInt64", "1500"},
+		{"Temperature", "float64", "float64", "Kelvin", "AddFloat64", "273.15"}}
+	for _, c := range cts {
+		m.Types = append(m.Types, &Type{Kind: KTyperef, NS: ns, Name: c.name, Prim: c.prim})
+		m.Custom = append(m.Custom, Ref{ns, c.name})
+		m.HandWritten["com/ex/weather/"+c.name+".go"] = customGo("weather", c.name, c.prim, c.goPrim, c.field, c.add)
+	}
+	user := func(ns, name string) []*Type {
+		rec := &Type{Kind: KRecord, NS: ns, Name: name}
+		for _, c := range cts {
+			t := R("com.ex.weather", c.name)
+			l := strings.ToLower(c.name)
+			rec.Fields = append(rec.Fields, Field{Name: l, Type: t}, Field{Name: l + "Opt", Type: t, Optional: true},
+				Field{Name: l + "Def", Type: t, Default: sp(c.def)}, Field{Name: l + "s", Type: Arr(t)},
+				Field{Name: l + "ByName", Type: MapOf(t), Optional: true}, Field{Name: l + "Nested", Type: MapOf(Arr(t)), Default: sp("{}")})
+		}
+		u := &Type{Kind: KUnion, NS: ns, Name: name + "Choice", Members: []Member{
+			{R("com.ex.weather", "Urn"), "com.ex.weather.Urn"}, {R("com.ex.weather", "Millis"), "com.ex.weather.Millis"}, {P("string"), "string"}}}
+		rec.Fields = append(rec.Fields, Field{Name: "choice", Type: R(ns, name+"Choice"), Optional: true})
+		return []*Type{rec, u}
+	}
+	resource := func(ns, name string, entity TE) *Resource {
+		k := R("com.ex.weather", "Urn")
+		return &Resource{NS: ns + "." + name, Segs: []PathSeg{{Name: name, KeyName: name + "Id", Key: &k}}, Schema: &entity,
+			Methods: append(restMethods(entity, []string{"get", "create", "update", "batch_get", "batch_update", "delete"}, false, 1),
+				finder("since", entity, []Field{{Name: "since", Type: R("com.ex.weather", "Millis")}, {Name: "temps", Type: Arr(R("com.ex.weather", "Temperature")), Optional: true}}, false, nil),
+				action("warm", true, []Field{{Name: "by", Type: R("com.ex.weather", "Temperature")}}, tp(R("com.ex.weather", "Temperature"))))}
+	}
+	m.Types = append(m.Types, user(ns, "Reading")...)
+	m.Resources = append(m.Resources, resource(ns, "readings", R(ns, "Reading")))
+	d := &Manifest{Family: "custom-typerefs-two-step:downstream", WellFormed: true}
+	d.Types = append(d.Types, user("com.ex.report", "Report")...)
+	d.Types = append(d.Types, recRefs("com.ex.report", "Summary", Ref{ns, "Reading"}, Ref{ns, "Urn"}))
+	d.Resources = append(d.Resources, resource("com.ex.report", "reports", R("com.ex.report", "Report")))
+	m.Downstream = d
 	return m
 }
